@@ -224,6 +224,17 @@ class PA:
             return self.rel[(a, b)]
         if (b, a) in self.rel:
             return _inv(self.rel[(b, a)])
+        # relation to a constant implied through the other constants the term is related to
+        ca, cb = a.startswith("#"), b.startswith("#")
+        if ca != cb:
+            t, c = (b, a) if ca else (a, b)
+            out = ALL
+            for (x, y), r in self.rel.items():
+                if x == t and y.startswith("#"):
+                    out = out & _compose(r, _const_rel(y, c))
+                elif y == t and x.startswith("#"):
+                    out = out & _compose(_inv(r), _const_rel(x, c))
+            return _inv(out) if ca else out
         return ALL
 
     def _set(self, a: str, b: str, r: frozenset):
